@@ -107,7 +107,9 @@ def run_c14(ctx):
                 res.count("ledger_moved_between_spends")
             remaining = sum(o.value for r, o in owned.items() if r not in w.spent_transaction_outputs)
             mode = rng.choice(["small", "small", "half", "exact", "exact_fee", "prefix_exact", "prefix_exact", "over",
-                               "way_over", "tiny"])
+                               "way_over", "tiny", "later_covers", "later_covers"])
+            if step % 3 == 0:
+                mode = "later_covers"
             fee = rng.choice([0, 0, 1, 5, 1000])
             if mode == "small":
                 amount = rng.randrange(1, max(2, remaining // 10 + 1))
@@ -133,6 +135,28 @@ def run_c14(ctx):
                 amount = tot_ - fee
                 if amount <= 0:
                     continue
+            elif mode == "later_covers":
+                # the outputs met first are together too small, a later single output covers amount + fee by itself
+                bal = cs.public_key_balances_by_hash[head]
+                order_ = []
+                for pk_ in w.keypairs:
+                    b_ = bal.get(SECP256k1PublicKey(pk_))
+                    if b_ is not None:
+                        order_ += [r for r in b_.output_references if r not in w.spent_transaction_outputs]
+                pick = None
+                acc_ = 0
+                for j_, r_ in enumerate(order_):
+                    if j_ >= 1 and utxo[r_].value > acc_ + 1:
+                        pick = (acc_, utxo[r_].value)
+                        break
+                    acc_ += utxo[r_].value
+                if pick is None:
+                    amount = rng.randrange(1, max(2, remaining // 10 + 1))       # no such geometry now: a small spend
+                else:
+                    total_ = rng.choice([pick[0] + 1, pick[1], rng.randrange(pick[0] + 1, pick[1] + 1)])
+                    fee = rng.choice([0, 0, 1, 5]) if total_ > 6 else 0
+                    amount = total_ - fee
+                    res.count("later_single_output_covers")
             elif mode == "over":
                 amount = remaining + 1
             elif mode == "way_over":
@@ -260,7 +284,7 @@ def run_c14(ctx):
 
 # ------------------------------------------------------------------ C15
 
-def strace_save(wallet_json_old, new_wallet):
+def strace_save(wallet_json_old, new_wallet, stale=None):
     """the system calls of the real save_wallet; returns list of ('open', name) / ('write', name, bytes) / ('rename', a, b)"""
     d = tempfile.mkdtemp(prefix="skv-save-")
     try:
@@ -268,6 +292,10 @@ def strace_save(wallet_json_old, new_wallet):
             f.write(wallet_json_old)
         with open(os.path.join(d, "new.json"), "w") as f:
             new_wallet.dump(f)
+        if stale is not None:
+            # what a save that crashed between writing and renaming leaves behind
+            with open(os.path.join(d, "wallet.json.new"), "w") as f:
+                f.write(stale)
         script = ("import sys; sys.path.insert(0, %r)\n"
                   "from skepticoin.wallet import Wallet, save_wallet\n"
                   "w = Wallet.load(open('new.json'))\n"
@@ -316,15 +344,21 @@ def strace_save(wallet_json_old, new_wallet):
         shutil.rmtree(d, ignore_errors=True)
 
 
-def replay_prefix(old, calls, n):
+def replay_prefix(old, calls, n, stale=None):
     """file contents after the first n system calls (a crash right after call n)"""
     files = {"wallet.json": old.encode()}
+    if stale is not None:
+        files["wallet.json.new"] = stale.encode()
+    offset = {}
     for c in calls[:n]:
         if c[0] == "open":
             if c[2] or c[1] not in files:
                 files[c[1]] = b""
+            offset[c[1]] = 0
         elif c[0] == "write":
-            files[c[1]] = files.get(c[1], b"") + c[2]
+            cur, at = files.get(c[1], b""), offset.get(c[1], 0)
+            files[c[1]] = cur[:at] + c[2] + cur[at + len(c[2]):]
+            offset[c[1]] = at + len(c[2])
         elif c[0] == "rename":
             if c[1] in files:
                 files[c[2]] = files.pop(c[1])
@@ -453,7 +487,10 @@ def run_c15(ctx):
         f = io.StringIO()
         nw.dump(f)
         new = f.getvalue()
-        calls, final = strace_save(old, nw)
+        # every other run starts with a left-over temporary file from an earlier, interrupted save of a larger wallet
+        stale = (new + '\n{"left": "over from an interrupted save", "pad": "%s"}\n' % ("x" * rng.randrange(1, 400))) if rep % 2 == 1 else None
+        calls, final = strace_save(old, nw, stale)
+        res.count("save_with_stale_temporary_file" if stale else "save_on_clean_directory")
         if calls is None:
             res.notes.append("strace not available: atomic save checked on the Python-level operation sequence only")
             continue
@@ -469,7 +506,7 @@ def run_c15(ctx):
             res.violations.append({"kind": "save_wallet is not open(new, truncate), writes, rename(new, wallet.json)",
                                    "calls": [c[:2] for c in calls][:8]})
         for n in range(len(calls) + 1):
-            files = replay_prefix(old, calls, n)
+            files = replay_prefix(old, calls, n, stale)
             content = files.get("wallet.json")
             res.case(("crash", rep, n), nontrivial=True)
             if content is None or content.decode(errors="replace") not in (old, new):
